@@ -236,7 +236,24 @@ Section New.
     rewrite eff_new in Hf by exact Hne. pose proof (V _ _ _ _ Hg Hq Hf) as Hv.
     rewrite res_new_private; [exact Hv|exact He|]. intros [-> ->]. congruence.
   Qed.
+  Lemma vis_new_name good : good n0 = false -> vis good own exp uses -> vis good own' exp' uses.
+  Proof.
+    intros Hg V u q n a Hgn Hq Hf. assert (Hn : n <> n0) by (intros ->; congruence).
+    rewrite eff_new in Hf by tauto. rewrite res_new_name by exact Hn. eapply V; eassumption.
+  Qed.
 End New.
+
+Lemma res_ext_own (own own' : tbl) exp us p n :
+  (forall p n, own p n = own' p n) -> res own exp us p n = res own' exp us p n.
+Proof. intros H. apply res_ext; auto. intros q _. unfold eff. rewrite H. reflexivity. Qed.
+Lemma vis_ext_own good (own own' : tbl) exp us :
+  (forall p n, own p n = own' p n) -> vis good own exp us -> vis good own' exp us.
+Proof.
+  intros H V u q n a Hg Hq Hf. rewrite <- (res_ext_own own own' exp us u n H). apply (V u q n a Hg Hq).
+  unfold eff in *. rewrite H. exact Hf.
+Qed.
+Lemma inj_ext_own (own own' : tbl) : (forall p n, own p n = own' p n) -> inj own -> inj own'.
+Proof. intros H I p n p' n' a H1 H2. rewrite <- H in H1, H2. eapply I; eassumption. Qed.
 
 (* ---- the export flag of the own cell a0 of (p0, n0) flips ---- *)
 Section Flag.
